@@ -12,7 +12,9 @@ package verifharness
 //   mintcoin <addr> <denom> <amt>               -> ok          bank: mint to an account (set-up)
 //   watch <denom>                               -> ok          include a denomination in dumps
 //   regcoin <denom> <contract>                  -> ok          real RegisterCoin; <contract> = address it deployed (checked)
-//   addcoin <denom> <contract>                  -> ok          real AddCoin
+//   addcoin <denom> <contract>                  -> ok|err      real AddCoin
+//   update <old> <new> <0|1>                    -> ok|err      real UpdateTokenPairERC20 (third field: the metadata comparison is expected to pass)
+//   tryregcoin <denom> / tryregerc20 <contract> -> err         real RegisterCoin / RegisterERC20 for something registered already
 //   deploy <mb|dbm|mal|dd|fr|pg> <contract> <deployer> <init> -> ok  deploy a token contract of the repo (address checked)
 //   regerc20 <contract> <denom>                 -> ok          real RegisterERC20; <denom> = voucher denomination it created (checked)
 //   tmint <contract> <caller> <to> <amt>        -> ok|err      EVM call mint(to, amt) by caller
@@ -108,7 +110,9 @@ type c11World struct {
 	extra     string   // a denomination observed by the oracle although it is not part of the dumps
 	extraAcct [][]byte // accounts observed by the oracle although they are not tracked (named in the message; the empty address)
 	// the oracle's OWN record of what governance switched off (independent of the flags the keeper stores)
-	govOff       map[common.Address]bool // contract of the pair -> last committed ToggleRelay left it off
+	govOff       map[common.Address]bool // contract of the pair -> last committed ToggleRelay left it off (set by accepted toggles ONLY)
+	offOps       map[common.Address][]string // governance operations that touched the pair since it was switched off
+	updated      map[common.Address]bool     // pairs re-pointed by UpdateTokenPairERC20 (their escrow stays in the old contract)
 	govModuleOff bool                    // the value last written under the parameter KEY EnableAggregate is false
 	govParam     map[string]bool         // parameter key -> value last written under it (by SetParams, genesis or a by-key proposal)
 	offByKey     bool                    // … and that write was a governance parameter change addressed by key
@@ -183,6 +187,7 @@ func (w *c11World) reset() {
 	w.kinds = map[common.Address]string{}
 	w.hist = nil
 	w.govOff, w.offRestarts, w.govModuleOff = map[common.Address]bool{}, map[common.Address]int{}, false
+	w.offOps, w.updated = map[common.Address][]string{}, map[common.Address]bool{}
 	w.govParam, w.offByKey = map[string]bool{"EnableAggregate": true, "EnableEVMHook": true}, false
 }
 
@@ -461,8 +466,13 @@ func (w *c11World) oracleMsg(r *Rec, m c11Msg, out string, s0, s1 *c11Snap, p c1
 		kind = "ce"
 	}
 	// gated: disabled module / disabled pair / blocked receiver => rejected
+	if p.found && w.govOff[p.addr] && out != "err basic" {
+		for _, o := range w.distinctOffOps(p.addr) {
+			r.Count("disabled-op." + o + "." + kind + "." + map[bool]string{true: "ACCEPTED", false: "refused"}[out == "ok" || out == "clean"])
+		}
+	}
 	if (out == "ok" || out == "clean") && p.found && w.govOff[p.addr] {
-		w.find(r, "C11:converted-on-disabled-pair:"+kind, "a conversion was accepted for a pair whose last committed relay toggle was OFF (the oracle's own record)", out, "rejected")
+		w.find(r, "C11:conversion-accepted-on-disabled-pair:after-"+w.lastOffOp(p.addr), "a conversion was accepted for a pair whose last committed relay toggle was OFF (the oracle's own record)", out, "rejected")
 	}
 	if (out == "ok" || out == "clean") && w.govModuleOff {
 		w.find(r, "C11:converted-while-module-disabled:"+kind, "a conversion was accepted although the last committed EnableAggregate change was OFF (the oracle's own record)", out, "rejected")
@@ -650,8 +660,8 @@ func (w *c11World) oracleBacking(r *Rec, s *c11Snap) {
 	for _, c := range w.contracts {
 		ch := c11Hex(c)
 		p := s.pairs[ch]
-		if !p.found || !s.code[ch] {
-			continue
+		if !p.found || !s.code[ch] || w.updated[c] {
+			continue // (a re-pointed pair leaves its escrow in the old contract: registry business, C12)
 		}
 		switch p.owner {
 		case aggtypes.OWNER_MODULE:
@@ -834,10 +844,53 @@ func (w *c11World) apply(r *Rec, op string) string {
 		w.seeDenom(d)
 		md := banktypes.Metadata{Description: "c11 " + d, Base: d, Name: d, Symbol: "C11", Display: d,
 			DenomUnits: []*banktypes.DenomUnit{{Denom: d, Exponent: 0}}}
-		if _, err := K.AddCoin(w.ctx, md, "0x"+f[2]); err != nil {
-			r.t.Fatalf("addcoin %q: %v", d, err)
+		cctx, write := w.ctx.CacheContext()
+		if _, err := K.AddCoin(cctx, md, "0x"+f[2]); err != nil {
+			return "err"
 		}
+		write()
+		w.noteGov("addcoin", c11Addr(f[2]))
 		return "ok"
+	case "update":
+		// governance UpdateTokenPairERC20(old, new); f[3] = the generator's expectation of the metadata comparison
+		old, nw := c11Addr(f[1]), c11Addr(f[2])
+		w.seeContract(nw)
+		cctx, write := w.ctx.CacheContext()
+		var err error
+		pan, _ := safely(func() { _, err = K.UpdateTokenPairERC20(cctx, old, nw) })
+		if pan || err != nil {
+			return "err"
+		}
+		write()
+		w.govOff[nw], w.offOps[nw], w.offRestarts[nw] = w.govOff[old], w.offOps[old], w.offRestarts[old]
+		delete(w.govOff, old)
+		delete(w.offOps, old)
+		w.updated[nw] = true
+		w.noteGov("update", nw)
+		return "ok"
+	case "tryregcoin":
+		d := str(f[1])
+		md := banktypes.Metadata{Description: "c11 " + d, Base: d, Name: d, Symbol: "C11", Display: d,
+			DenomUnits: []*banktypes.DenomUnit{{Denom: d, Exponent: 0}}}
+		cctx, write := w.ctx.CacheContext()
+		if _, err := K.RegisterCoin(cctx, md); err != nil {
+			if p := w.resolve(w.ctx, d); p.found {
+				w.noteGov("tryregcoin", p.addr)
+			}
+			return "err"
+		}
+		write()
+		r.t.Fatalf("tryregcoin %q: registered although the generator expects a refusal", d)
+		return ""
+	case "tryregerc20":
+		cctx, write := w.ctx.CacheContext()
+		if _, err := K.RegisterERC20(cctx, c11Addr(f[1])); err != nil {
+			w.noteGov("tryregerc20", c11Addr(f[1]))
+			return "err"
+		}
+		write()
+		r.t.Fatalf("tryregerc20 %s: registered although the generator expects a refusal", f[1])
+		return ""
 	case "deploy":
 		addr, err := w.deploy(f[1], c11Addr(f[3]), c11Big(f[4]))
 		if err != nil {
@@ -903,6 +956,7 @@ func (w *c11World) apply(r *Rec, op string) string {
 		K.SetParams(w.ctx, p)
 		w.govParam["EnableAggregate"] = f[1] == "1" // SetParams writes every field under its own key
 		w.govModuleOff, w.offByKey = f[1] != "1", false
+		w.noteGovAll("param")
 		return "ok"
 	case "ctl":
 		who := common.Address{}
@@ -944,11 +998,19 @@ func (w *c11World) apply(r *Rec, op string) string {
 			w.govModuleOff, w.offByKey = f[2] != "1", f[2] != "1"
 		}
 		r.Count("param.by-key." + key + "." + val)
+		w.noteGovAll("param")
 		return "ok"
 	case "toggle":
 		if tp, err := K.ToggleRelay(w.ctx, str(f[1])); err == nil {
 			c := tp.GetERC20Contract()
 			w.govOff[c] = !w.govOff[c]
+			if w.govOff[c] {
+				if w.offOps[c] != nil {
+					w.offOps[c] = []string{"retoggle"} // off -> on -> off
+				} else {
+					w.offOps[c] = []string{}
+				}
+			}
 			w.offRestarts[c] = 0
 		}
 		return "ok"
@@ -961,7 +1023,13 @@ func (w *c11World) apply(r *Rec, op string) string {
 		return "ok"
 	case "suicide":
 		c := c11Addr(f[1])
-		if w.kinds[c] == "mb" {
+		shared := w.kinds[c] == "mb"
+		for _, o := range w.contracts {
+			if o != c && w.kinds[o] == w.kinds[c] {
+				shared = true // the same byte code is deployed twice (e.g. the target of an UpdateTokenPairERC20)
+			}
+		}
+		if shared {
 			// ethermint v0.13 stores code by hash and deletes it on self-destruct, which would wipe the code of every
 			// other contract with the same byte code (all MinterBurner tokens). For those the account is turned into a
 			// non-contract account instead (the other way to reach the clean-up branch: `!acc.IsContract()`).
@@ -1074,6 +1142,7 @@ func (w *c11World) restart(r *Rec) string {
 		return "err"
 	}
 	write()
+	w.noteGovAll("restart")
 	r.Count("restart")
 	withOff := false
 	for c, off := range w.govOff {
@@ -1089,4 +1158,38 @@ func (w *c11World) restart(r *Rec) string {
 		r.Count("restart.with-disabled-module")
 	}
 	return "ok"
+}
+
+// governance operations seen by a pair while it is switched off (the oracle's own record)
+func (w *c11World) noteGov(op string, c common.Address) {
+	if w.govOff[c] {
+		w.offOps[c] = append(w.offOps[c], op)
+	}
+}
+
+func (w *c11World) noteGovAll(op string) {
+	for c, off := range w.govOff {
+		if off {
+			w.offOps[c] = append(w.offOps[c], op)
+		}
+	}
+}
+
+func (w *c11World) lastOffOp(c common.Address) string {
+	if o := w.offOps[c]; len(o) > 0 {
+		return o[len(o)-1]
+	}
+	return "toggle"
+}
+
+func (w *c11World) distinctOffOps(c common.Address) []string {
+	seen := map[string]bool{"toggle": true}
+	out := []string{"toggle"}
+	for _, o := range w.offOps[c] {
+		if !seen[o] {
+			seen[o] = true
+			out = append(out, o)
+		}
+	}
+	return out
 }
